@@ -136,10 +136,35 @@ Definition normalize (s : str) : str :=
 Definition encode_refs (frags : list str) : enc :=
   match frags with [] => EAbsent | _ => EAttr (join_sp frags) end.
 
-(* _decode_ereferences: split, normalize each, skip the empty ones *)
-Definition decode_refs (e : enc) : list str :=
+Definition has_hash (s : str) : bool := existsb (fun c => c =? 35) s.
+Definition has_colon (s : str) : bool := existsb (fun c => c =? 58) s.
+(* token.split(':')[0] *)
+Fixpoint before_colon (s : str) : str :=
+  match s with
+  | [] => []
+  | c :: r => if c =? 58 then [] else c :: before_colon r
+  end.
+
+(* XMIResource._split_references: a token 'prefix:Type' (a ':' and no '#', a registered prefix)
+   that is followed by a token holding '#' only qualifies that token and is dropped.
+   `known` : is this prefix in self.prefixes *)
+Fixpoint drop_qualifiers (known : str -> bool) (toks : list str) : list str :=
+  match toks with
+  | [] => []
+  | t :: r =>
+    let dropped :=
+      match r with
+      | n :: _ => negb (has_hash t) && has_colon t && has_hash n && known (before_colon t)
+      | [] => false
+      end in
+    if dropped then drop_qualifiers known r else t :: drop_qualifiers known r
+  end.
+
+(* _decode_ereferences: split, drop the type qualifiers, skip the empty tokens;
+   _resolve_nonhref normalizes each token before it resolves it *)
+Definition decode_refs (known : str -> bool) (e : enc) : list str :=
   match e with
-  | EAttr t => filter (fun x => negb (is_empty x)) (map normalize (split_ws t))
+  | EAttr t => map normalize (filter (fun x => negb (is_empty x)) (drop_qualifiers known (split_ws t)))
   | _ => []
   end.
 
@@ -188,7 +213,7 @@ Definition put_enc (e : enc) : list Z :=
      1 <str>                  -> split()
      2 k <ostr>*k             -> encode_many, then decode_many of it
      3 sd <ostr dflt> <ostr v>-> encode_single, then decode_single of it
-     4 k <str>*k              -> encode_refs, then decode_refs of it
+     4 k <str>*k              -> encode_refs, then decode_refs of it (every prefix taken as registered)
      5 <ostr id> <str frag>   -> ref_fragment *)
 Definition run_xmiattr (t : list Z) : list Z :=
   match t with
@@ -203,7 +228,7 @@ Definition run_xmiattr (t : list Z) : list Z :=
     let e := encode_single (sd =? 1) d v in put_enc e ++ put_ostr (decode_single d e)
   | 4 :: k :: r =>
     let (vs, _) := get_ostrs (Z.to_nat k) r in
-    let e := encode_refs (map unsome vs) in put_enc e ++ put_ostrs (map Some (decode_refs e))
+    let e := encode_refs (map unsome vs) in put_enc e ++ put_ostrs (map Some (decode_refs (fun _ => true) e))
   | 5 :: r =>
     let (id, r1) := get_ostr r in
     let (f, _) := get_ostr r1 in
